@@ -1,10 +1,10 @@
 package main
 
 import (
-	"os"
 	"fmt"
 	"go/token"
 	"go/types"
+	"os"
 	"strings"
 
 	"golang.org/x/tools/go/ssa"
@@ -813,7 +813,7 @@ func ruleFanoutSet(c *Ctx) {
 				return false
 			}
 			walk = func(v ssa.Value, d int) bool {
-				if d > 10 || seen[v] {
+				if d > 24 || seen[v] {
 					return false
 				}
 				seen[v] = true
@@ -838,6 +838,12 @@ func ruleFanoutSet(c *Ctx) {
 						for _, e := range node.In {
 							if e.Site == nil || e.Site.Common().StaticCallee() != pf {
 								continue
+							}
+							// a method-set wrapper nobody calls is no caller
+							if cf := e.Caller.Func; cf != nil && cf.Synthetic != "" && !strings.HasSuffix(cf.Name(), "$bound") {
+								if cn := p.CG.Nodes[cf]; cn == nil || len(cn.In) == 0 {
+									continue
+								}
 							}
 							args := e.Site.Common().Args
 							if idx >= len(args) {
@@ -923,8 +929,11 @@ func ruleFanoutSet(c *Ctx) {
 						for _, in := range instrsOf(sf) {
 							if r, ok := in.(*ssa.Return); ok {
 								for _, rv := range r.Results {
-									if _, isSl := rv.Type().Underlying().(*types.Slice); isSl && walk(rv, d+1) {
-										return true
+									switch rv.Type().Underlying().(type) {
+									case *types.Slice, *types.Map:
+										if walk(rv, d+1) {
+											return true
+										}
 									}
 								}
 							}
